@@ -18,6 +18,10 @@ def gen_mixed(r, res, tables, models=None, p_illegal=0.2, p_aff=0.15, p_model=0.
     for m in models:
         require[m] = tables[m]["version"]
     sysd = histories.small_sys(r, require=require)
+    if r.random() < 0.25:
+        # the models are required by the first stream only (that enables them for every thread)
+        sysd.require_first_only = True
+        res.dist("hist:require-first-stream-only")
     w = Walk2(r, sysd, {m: tables[m] for m in models})
     bad = 1 if r.random() < p_illegal else 0
     res.dist("hist:" + ("with-illegal-step" if bad else "legal-walk"))
